@@ -91,6 +91,92 @@ def rnd_tra(rng, scale=5.0):
     return [(rng.unit() * 2 - 1) * scale for _ in range(3)]
 
 
+def rnd_matrix(rng):
+    """row-major 3x3 orthonormal matrix: rotations, axis-aligned signed permutations (exact 0/±1
+    entries), reflections (det = -1), tiny rotations (snapping)"""
+    k = rng.below(8)
+    if k == 0:      # signed permutation (proper or improper)
+        perm = [0, 1, 2]
+        rng.shuffle(perm)
+        R = [0.0] * 9
+        for i in range(3):
+            R[3 * i + perm[i]] = rng.choice([1.0, -1.0])
+        return R
+    ax = [rng.unit() * 2 - 1 for _ in range(3)]
+    if k == 1:
+        ax = [0.0, 0.0, 0.0]
+        ax[rng.below(3)] = 1.0
+    n = math.sqrt(sum(c * c for c in ax)) or 1.0
+    x, y, z = [c / n for c in ax]
+    th = rng.unit() * 2 * math.pi
+    if k == 2:
+        th = (rng.unit() - 0.5) * 4e-5
+    elif k == 3:
+        th = rng.choice([0.25, 0.5, 0.75, 0.125]) * 2 * math.pi
+    c, sn = math.cos(th), math.sin(th)
+    R = [c + x * x * (1 - c), x * y * (1 - c) - z * sn, x * z * (1 - c) + y * sn,
+         y * x * (1 - c) + z * sn, c + y * y * (1 - c), y * z * (1 - c) - x * sn,
+         z * x * (1 - c) - y * sn, z * y * (1 - c) + x * sn, c + z * z * (1 - c)]
+    if k in (4, 5):      # reflection: flip one column (det = -1)
+        j = rng.below(3)
+        for i in range(3):
+            R[3 * i + j] = -R[3 * i + j]
+    return R
+
+
+def rnd_xform(rng, scale=5.0):
+    """None | translation [3] | {"R": [9], "t": [3]}"""
+    if rng.chance(2, 5):
+        t = rnd_tra(rng, scale) or [0.0, 0.0, 0.0]
+        if rng.chance(1, 4):
+            t = [0.0, 0.0, 0.0]
+        return {"R": rnd_matrix(rng), "t": t}
+    return rnd_tra(rng, scale)
+
+
+def xf_up(tra, p):
+    if tra is None:
+        return list(p)
+    if isinstance(tra, dict):
+        R, t = tra["R"], tra["t"]
+        return [R[3 * i] * p[0] + R[3 * i + 1] * p[1] + R[3 * i + 2] * p[2] + t[i] for i in range(3)]
+    return [p[i] + tra[i] for i in range(3)]
+
+
+def xf_down(tra, p):
+    if tra is None:
+        return list(p)
+    if isinstance(tra, dict):
+        R, t = tra["R"], tra["t"]
+        d = [p[i] - t[i] for i in range(3)]
+        return [R[i] * d[0] + R[3 + i] * d[1] + R[6 + i] * d[2] for i in range(3)]
+    return [p[i] - tra[i] for i in range(3)]
+
+
+def xf_compose(a, x):
+    """a ∘ x (x applied first)"""
+    if a is None:
+        return x
+    if x is None:
+        return a
+    Ra = a["R"] if isinstance(a, dict) else [1.0, 0, 0, 0, 1.0, 0, 0, 0, 1.0]
+    ta = a["t"] if isinstance(a, dict) else a
+    Rx = x["R"] if isinstance(x, dict) else [1.0, 0, 0, 0, 1.0, 0, 0, 0, 1.0]
+    tx = x["t"] if isinstance(x, dict) else x
+    if not isinstance(a, dict) and not isinstance(x, dict):
+        return [tx[i] + ta[i] for i in range(3)]
+    R = [sum(Ra[3 * i + k] * Rx[3 * k + j] for k in range(3)) for i in range(3) for j in range(3)]
+    t = [sum(Ra[3 * i + k] * tx[k] for k in range(3)) + ta[i] for i in range(3)]
+    return {"R": R, "t": t}
+
+
+def xf_size(tra):
+    if tra is None:
+        return 0.0
+    t = tra["t"] if isinstance(tra, dict) else tra
+    return max(abs(v) for v in t)
+
+
 def rnd_turn(rng, lo, hi, open_lo=False):
     k = rng.below(6)
     if k == 0:
@@ -190,7 +276,11 @@ def region_words(reg, sc):
 
 
 def head_words(tol, tra):
-    return hx(tol) + (" n" if tra is None else " t " + " ".join(hx(v) for v in tra))
+    if tra is None:
+        return hx(tol) + " n"
+    if isinstance(tra, dict):
+        return hx(tol) + " x " + " ".join(hx(v) for v in tra["R"] + tra["t"])
+    return hx(tol) + " t " + " ".join(hx(v) for v in tra)
 
 
 # --------------------------------------------------------------------------- analytic oracle
@@ -316,7 +406,7 @@ def parse_build(out):
         w = item.split()
         nodes.append((w[0], int(w[1]), w[2], [fl(v) for v in w[3:]]))
     z = parts[2].split()
-    vals = [fl(v) for v in z if is_hex16(v)]
+    vals = [float("nan") if v == "nan" else fl(v) for v in z if is_hex16(v) or v == "nan"]
     boxes = [(vals[i:i + 3], vals[i + 3:i + 6]) for i in range(0, 36, 6)]
     return {"nodes": nodes, "Lint": boxes[0], "Lext": boxes[1], "Gint": boxes[2], "Gext": boxes[3],
             "Mint": boxes[4], "Mext": boxes[5]}
@@ -330,6 +420,10 @@ def bbox_nonnull(b):
     return all(b[0][i] <= b[1][i] for i in range(3))
 
 
+def bbox_has_nan(b):
+    return any(v != v for v in b[0] + b[1])
+
+
 def probes_for(rng, reg, tra, n):
     """probe points in the local frame of the region: grid + near-surface + far"""
     e = region_extent(reg)
@@ -341,13 +435,12 @@ def probes_for(rng, reg, tra, n):
     g = [-1.2, -0.6, 0.0, 0.5, 1.1]
     for _ in range(max(2, n // 4)):
         pts.append([e * rng.choice(g), e * rng.choice(g), e * rng.choice(g)])
-    if tra is not None:
-        pts = [[p[i] + tra[i] for i in range(3)] for p in pts]
+    pts = [xf_up(tra, p) for p in pts]
     return pts
 
 
 def local_point(p, tra):
-    return p if tra is None else [p[i] - tra[i] for i in range(3)]
+    return xf_down(tra, p)
 
 
 # --------------------------------------------------------------------------- objects (e2e)
@@ -378,6 +471,9 @@ def gen_object(rng, depth=0):
             angle = [rng.unit() * 0.999, rng.choice([0.25, 0.5, 0.75, 0.1 + 0.85 * rng.unit()])]
         return {"k": "solid", "r": r, "excl": excl, "angle": angle}
     if k == 5:
+        if rng.chance(1, 2):
+            return {"k": "xf", "x": {"R": rnd_matrix(rng), "t": [(rng.unit() * 2 - 1) * 2 for _ in range(3)]},
+                    "o": gen_object(rng, depth + 1)}
         return {"k": "tr", "t": [(rng.unit() * 2 - 1) * 2 for _ in range(3)], "o": gen_object(rng, depth + 1)}
     if k == 6:
         return {"k": "neg", "o": gen_object(rng, depth + 1)}
@@ -411,6 +507,8 @@ def object_words(o):
         return w
     if k == "tr":
         return "tr %s %s" % (" ".join(hx(v) for v in o["t"]), object_words(o["o"]))
+    if k == "xf":
+        return "xf %s %s" % (" ".join(hx(v) for v in o["x"]["R"] + o["x"]["t"]), object_words(o["o"]))
     if k == "neg":
         return "neg " + object_words(o["o"])
     if k in ("all", "any"):
@@ -444,6 +542,8 @@ def object_mem(o, p):
         return r
     if k == "tr":
         return object_mem(o["o"], [p[i] - o["t"][i] for i in range(3)])
+    if k == "xf":
+        return object_mem(o["o"], xf_down(o["x"], p))
     if k == "neg":
         return not object_mem(o["o"], p)
     if k == "all":
@@ -466,8 +566,9 @@ def object_leaves(o, tra=None, out=None):
         if o["angle"]:
             out.append((wedge_of_angle(o["angle"])[1], tra))
     elif k == "tr":
-        t = o["t"] if tra is None else [o["t"][i] + tra[i] for i in range(3)]
-        object_leaves(o["o"], t, out)
+        object_leaves(o["o"], xf_compose(tra, o["t"]), out)
+    elif k == "xf":
+        object_leaves(o["o"], xf_compose(tra, o["x"]), out)
     elif k == "neg":
         object_leaves(o["o"], tra, out)
     elif k in ("all", "any"):
@@ -482,7 +583,7 @@ def object_leaves(o, tra=None, out=None):
 def object_extent(o):
     ext = 0.0
     for reg, tra in object_leaves(o):
-        e = region_extent(reg) + (max(abs(v) for v in tra) if tra else 0.0)
+        e = region_extent(reg) + xf_size(tra)
         ext = max(ext, e)
     return ext
 
@@ -502,7 +603,7 @@ def run_build_diff(ctx, exe, model, sc, n, stats, findings):
     cases = []
     for _ in range(n):
         reg = gen_region(rng)
-        cases.append((reg, rnd_tol(rng), rnd_tra(rng, 2 * region_extent(reg) + 1)))
+        cases.append((reg, rnd_tol(rng), rnd_xform(rng, 2 * region_extent(reg) + 1)))
     # deterministic cases: the crash reported by another agent, degenerate / snapping cases
     fixed = [
         ({"type": "ellipsoid", "p": [0.04, 0.04, 0.04]}, 1e-5, None),
@@ -521,6 +622,16 @@ def run_build_diff(ctx, exe, model, sc, n, stats, findings):
         ({"type": "ppiped", "p": [1.0, 2.0, 3.0, 0.0, 0.0, 0.0]}, 1e-5, None),
         ({"type": "ppiped", "p": [1.0, 2.0, 3.0, -0.1, 0.1, 0.6]}, 1e-5, None),
         ({"type": "wedge", "p": [0.0, 0.25]}, 1e-5, None),
+        ({"type": "box", "p": [1.0, 2.0, 3.0]}, 1e-5, {"R": [0.0, -1.0, 0.0, 1.0, 0.0, 0.0, 0.0, 0.0, 1.0],
+                                                        "t": [1.0, 0.0, 0.0]}),
+        ({"type": "cyl", "p": [1.0, 2.0]}, 1e-5, {"R": [1.0, 0.0, 0.0, 0.0, 0.0, -1.0, 0.0, 1.0, 0.0],
+                                                   "t": [0.0, 0.0, 0.0]}),
+        ({"type": "cone", "p": [1.0, 0.5, 2.0]}, 1e-5, {"R": [1.0, 0.0, 0.0, 0.0, 1.0, 0.0, 0.0, 0.0, -1.0],
+                                                        "t": [0.0, 1.0, 0.0]}),
+        ({"type": "prism", "n": 6, "p": [1.0, 2.0, 0.0]}, 1e-5,
+         {"R": [0.8, -0.6, 0.0, 0.6, 0.8, 0.0, 0.0, 0.0, 1.0], "t": [0.5, 0.5, 0.5]}),
+        ({"type": "ellipsoid", "p": [1.0, 2.0, 3.0]}, 1e-5,
+         {"R": [0.36, 0.48, -0.8, -0.8, 0.6, 0.0, 0.48, 0.64, 0.6], "t": [1.0, -1.0, 2.0]}),
         ({"type": "wedge", "p": [0.75, 0.5]}, 1e-5, [1.0, 1.0, 0.0]),
     ]
     cases = fixed + cases
@@ -555,7 +666,7 @@ def check_bboxes(ctx, cases, lines, oh, rng, findings):
         if b is None or reg["type"] == "wedge":
             continue
         e = region_extent(reg)
-        margin = 10 * tol * max(1.0, e + (max(abs(v) for v in tra) if tra else 0.0))
+        margin = 10 * tol * max(1.0, e + xf_size(tra))
         pts = probes_for(rng, reg, tra, 12)
         # corners of the interior box pulled in by the margin are decisive probes
         if bbox_nonnull(b["Mint"]) and all(math.isfinite(v) for v in b["Mint"][0] + b["Mint"][1]):
@@ -575,10 +686,12 @@ def check_bboxes(ctx, cases, lines, oh, rng, findings):
                 sph = any(tag in ("s", "sc") for _, _, tag, _ in b["nodes"])
                 ecyl = reg["type"] == "ellipsoid" and any(
                     tag in ("cx", "cy", "cz", "cxc", "cyc", "czc") for _, _, tag, _ in b["nodes"])
-                findings.append(("bbox-interior" + ("/sphere" if sph else "/ellipsoid-cyl" if ecyl else ""),
+                rot = isinstance(tra, dict) and not all(v in (0.0, 1.0, -1.0) for v in tra["R"])
+                findings.append(("bbox-interior" + ("/sphere" if sph else "/ellipsoid-cyl" if ecyl
+                                                    else "/rotated" if rot else ""),
                                  reg, tol, tra, l,
                                  {"point": p, "interior": b["Mint"]}))
-            if mem and not in_bbox(b["Mext"], p):
+            if mem and not bbox_has_nan(b["Mext"]) and not in_bbox(b["Mext"], p):
                 findings.append(("bbox-exterior", reg, tol, tra, l, {"point": p, "exterior": b["Mext"]}))
     return n
 
@@ -616,7 +729,7 @@ def run_member(ctx, exe, model, sc, cases, lines_build, oh_build, rng, findings,
             continue
         chars = a[3:]
         e = region_extent(reg)
-        margin = 10 * tol * max(1.0, e + (max(abs(v) for v in tra) if tra else 0.0))
+        margin = 10 * tol * max(1.0, e + xf_size(tra))
         for j, p in enumerate(pts):
             if j >= len(chars):
                 break
@@ -633,6 +746,10 @@ def run_member(ctx, exe, model, sc, cases, lines_build, oh_build, rng, findings,
                 elif reg["type"] == "ellipsoid" and any(tag in ("cx", "cy", "cz", "cxc", "cyc", "czc")
                                                         for _, _, tag, _ in b["nodes"]):
                     why = "ellipsoid-cyl"
+                elif reg["type"] == "ellipsoid" and isinstance(tra, dict) and any(
+                        tag == "sq" for _, _, tag, _ in b["nodes"]) and not all(
+                        v in (0.0, 1.0, -1.0) for v in tra["R"]):
+                    why = "ellipsoid-gq-snap"
                 findings.append(("emission" + ("/" + why if why else ""), reg, tol, tra, l, {
                     "point": p, "point_local": lp, "analytic_member": mem, "real_csg_sense": got,
                     "emitted": [(sn, tag, d) for sn, _, tag, d in b["nodes"]]}))
@@ -684,6 +801,43 @@ def run_simplify_diff(ctx, exe, model, n):
                 diverged.append({"op": l, "impl": a, "model": b})
     ncrash = sum(1 for a in oh if is_crash(a))
     return len(lines), diverged, ncrash
+
+
+def run_xform_diff(ctx, exe, model, n, findings):
+    """SurfaceTransformer on random surfaces of every class with rotations / reflections: exact
+    diff, plus the impl-side oracle `sense at R x + t of the transformed surface = sense at x`"""
+    from checks import c12
+    rng = ctx.rng
+    lines, meta = [], []
+    for _ in range(n):
+        tag, d = c12.gen_surface(rng)
+        x = {"R": rnd_matrix(rng), "t": rnd_tra(rng, 5.0) or [0.0, 0.0, 0.0]}
+        lines.append("xform %s %s | %s" % (tag, " ".join(hx(v) for v in d),
+                                           " ".join(hx(v) for v in x["R"] + x["t"])))
+        meta.append((tag, d, x))
+    _, oh = vlib.run_lines([exe], lines)
+    diverged = []
+    if model:
+        _, om = vlib.run_lines([model], lines)
+        for l, a, b in zip(lines, oh, om):
+            if a != b:
+                diverged.append({"op": l, "impl": a, "model": b})
+    n_or = 0
+    for (tag, d, x), l, o in zip(meta, lines, oh):
+        w = o.split()
+        if len(w) < 2 or not all(is_hex16(v) for v in w[1:]):
+            continue
+        ntag, nd = w[0], [fl(v) for v in w[1:]]
+        for _ in range(3):
+            p = [(rng.unit() * 2 - 1) * 6 for _ in range(3)]
+            q = xf_up(x, p)
+            f0, f1 = c12.quadric(tag, d, p), c12.quadric(ntag, nd, q)
+            scale = (sum(abs(v) for v in d) + 1) * (sum(abs(v) for v in p + q) + 1) ** 2
+            n_or += 1
+            if abs(f0) > 1e-6 * scale and (f0 > 0) != (f1 > 0):
+                findings.append(("xform-sense", {"type": tag}, 0.0, x, l,
+                                 {"point": p, "image": q, "f_before": f0, "f_after": f1}))
+    return len(lines), n_or, diverged
 
 
 def run_e2e(ctx, exe, sc, n, npts, findings, stats):
@@ -802,10 +956,14 @@ def classify(kind, reg, info):
         return KNOWN_RECURSION_KEY if t == "ellipsoid" else "simplifier-recursion:" + t
     if kind == "bbox-interior/sphere":
         return "bbox-interior-unsound:sphere"
+    if kind == "bbox-interior/rotated":
+        return "bbox-interior-unsound:rotated"
     if kind == "bbox-interior":
         return "bbox-interior-unsound:" + t
     if kind == "emission/ppiped-y":
         return "ppiped-y-extent-cos-alpha"
+    if kind == "emission/ellipsoid-gq-snap":
+        return "ellipsoid-rotated-cross-terms-dropped"
     if kind in ("emission/ellipsoid-cyl", "bbox-interior/ellipsoid-cyl"):
         return "ellipsoid-simplified-to-cylinder"
     if kind == "bbox-exterior":
@@ -814,6 +972,8 @@ def classify(kind, reg, info):
         return "emission-wrong:" + t
     if kind == "spec-vs-python":
         return "oracle-disagrees-with-lean-spec:" + t
+    if kind == "xform-sense":
+        return "transformed-surface-sense-differs:" + t
     if kind == "e2e-crash":
         return "e2e-crash"
     if kind == "e2e/cone-merge":
@@ -880,9 +1040,10 @@ def run_part(ctx):
         ctx, exe, model, sc, [c for c, _, _ in sub], [l for _, l, _ in sub], [o for _, _, o in sub],
         ctx.rng, findings, 24 if quick else 40)
     n_simp, div_simp, simp_crash = run_simplify_diff(ctx, exe, model, (20000 if quick else 300000) * boost)
+    n_xf, n_xf_or, div_xf = run_xform_diff(ctx, exe, model, (5000 if quick else 100000) * boost, findings)
     n_e2e, n_e2e_eval = run_e2e(ctx, exe, sc, (300 if quick else 4000) * boost, 40 if quick else 80,
                                 findings, stats)
-    diverged = div_corpus + div_build + div_mem + div_simp
+    diverged = div_corpus + div_build + div_mem + div_simp + div_xf
     if diverged:
         broken.append(f"correspondence: model and implementation differ on {len(diverged)} ops "
                       f"(build {len(div_build)}, member {len(div_mem)}, simplify {len(div_simp)}); "
